@@ -6,7 +6,7 @@ import typing as t
 
 from hypothesis import strategies as st
 
-from .. import gens, msgcheck, rfc4512
+from .. import gens, msgcheck, rfc4512, twins
 from ..engine import QUICK, THOROUGH, Ctx, Part, Property, Violation
 from .c16 import _selftest
 
@@ -29,6 +29,7 @@ class Sentences(Part):
         ref = rfc4512.parse(kind, text)
         if ref != want:
             raise AssertionError(f"harness: derivation and reference parser disagree on {text!r}")
+        twins.poison_parser(rfc4512.lib_class(kind).from_string, text)
         try:
             obj = rfc4512.lib_class(kind).from_string(text)
         except Exception as e:
